@@ -464,7 +464,34 @@ static void sphere_case(vf_rng *r)
         if (judge("cart2sph.rho", "value", rr, 2, rho, d)) { VF_COUNT("judged/cart2sph"); cell("cart2sph", (z < 0) * 4 + (y < 0) * 2 + (x < 0), rr); }
         judge("cart2sph.theta", "value", tt, kt, th, d);
         judge("cart2sph.alpha", "value", aa, ka, alp, d);
+        /* two outputs the caller does not want pointed at ONE scratch cell (no parameter is restrict-qualified): the third output is judged as before.
+           An implementation that parks an intermediate in an output cell and reads it back gives a different - and wrong - value here
+           (seeded change C11-K: cart2sph as two successive polar conversions through *rho). Same bound as the plain call. */
+        if (i % 4 == 0)
+        {
+            a_real u, o = 0;
+            int const w = (i / 4) % 3;
+            if (w == 0) { a_real_cart2sph(x, y, z, &u, &u, &o); judge("cart2sph.alpha", "two-other-outputs-share-a-cell", aa, ka, o, d); }
+            else if (w == 1) { a_real_cart2sph(x, y, z, &u, &o, &u); judge("cart2sph.theta", "two-other-outputs-share-a-cell", tt, kt, o, d); }
+            else { a_real_cart2sph(x, y, z, &o, &u, &u); judge("cart2sph.rho", "two-other-outputs-share-a-cell", rr, 2, o, d); }
+            VF_COUNT("outputs-sharing-a-cell/cart2sph");
+        }
         a_real_sph2cart(rho, th, alp, &bx, &by, &bz);
+        if (i % 4 == 1)
+        {
+            a_real u, o = 0, want;
+            int const w = (i / 4) % 3;
+            if (w == 0) { a_real_sph2cart(rho, th, alp, &u, &u, &o); want = bz; }
+            else if (w == 1) { a_real_sph2cart(rho, th, alp, &u, &o, &u); want = by; }
+            else { a_real_sph2cart(rho, th, alp, &o, &u, &u); want = bx; }
+            VF_COUNT("outputs-sharing-a-cell/sph2cart");
+            /* the component from the plain call is itself judged below; the aliased call must agree with it to within the same bound */
+            if (!(fabsq((q_t)o - (q_t)want) <= KB * EPSQ * rr * (1 + fabsq((q_t)th) + fabsq((q_t)alp))))
+            {
+                vf_viol("real/sph2cart/two-other-outputs-share-a-cell", "%s: sph2cart(%a,%a,%a) component %d = %a when the other two outputs share one cell, %a when they do not", d, (double)rho, (double)th,
+                        (double)alp, 2 - w, (double)o, (double)want);
+            }
+        }
         VF_COUNT("judged/sph2cart");
         VF_COUNT("sphere-round-trip");
         ++vf.evals;
